@@ -169,6 +169,24 @@ func init() {
 	Fix64TypeMinFractionalBig.Abs(Fix64TypeMinFractionalBig)
 }
 
+// ScaleFractional returns the fractional part, given as an integer of `scale` decimal digits,
+// as an integer of `targetScale` decimal digits (the representation of the types' minimum and
+// maximum fractional parts). The scale must not exceed the target scale.
+func ScaleFractional(fractional *big.Int, scale uint, targetScale uint) *big.Int {
+	if scale >= targetScale {
+		return fractional
+	}
+	factor := new(big.Int).Exp(
+		big.NewInt(10),
+		new(big.Int).SetUint64(uint64(targetScale-scale)),
+		nil,
+	)
+	return factor.Mul(factor, fractional)
+}
+
+// CheckRange returns true if the given fixed-point number is in the given range.
+// The fractional value, the minimum fractional, and the maximum fractional
+// must all have the same scale (see ScaleFractional).
 func CheckRange(
 	negative bool,
 	unsignedIntegerValue, fractionalValue,
